@@ -67,10 +67,10 @@ def _gen(g):
     tiny = any(max(p) <= 3 for p in chunks.values())      # byte-wise transports: keep payloads small (cycles ~ bytes)
     return {"ver": g.choice(["1.2", "1.3"]), "sc": [g.chance(75), g.chance(75)],
             "chunks": chunks, "cut": cut,
-            "msgs": {"c": sizes(4, [0, 1, 5, 100, 3000, 16384, 16385] + ([] if tiny else [40000, 70000, 200000])),
-                     "s": sizes(4, [0, 1, 5, 100, 3000, 16384, 16385] + ([] if tiny else [40000, 70000, 200000]))},
-            "recv": {"c": [g.choice([1, 7, 100, 1000, 16384, 65536, 70000]) for _ in range(g.int(1, 3))],
-                     "s": [g.choice([1, 7, 100, 1000, 16384, 65536, 70000]) for _ in range(g.int(1, 3))]},
+            "msgs": {"c": sizes(8, [0, 1, 5, 100, 3000, 6000, 10000, 16384, 16385] + ([] if tiny else [40000, 70000, 200000])),
+                     "s": sizes(8, [0, 1, 5, 100, 3000, 6000, 10000, 16384, 16385] + ([] if tiny else [40000, 70000, 200000]))},
+            "recv": {"c": [g.choice([1, 7, 100, 1000, 16384, 20000, 30000, 65536, 70000]) for _ in range(g.int(1, 3))],
+                     "s": [g.choice([1, 7, 100, 1000, 16384, 20000, 30000, 65536, 70000]) for _ in range(g.int(1, 3))]},
             "closer": g.choice(["c", "s"])}
     # (cases may carry "doomed": {side: [receive indexes]} = receives made in an already cancelled scope; NOT generated:
     # the statement does not quantify over cancellation, and on the unchanged tree a receive() cancelled while it
